@@ -65,7 +65,7 @@ def gen(rng, i, tier):
     for n in rng.sample(SIM_NAMES + NEAR, rng.choice([0, 1, 2])):
         tree[n] = GOOD
     return {"fs": rng.choice(["native", "mem"]), "tree": enc_tree(tree), "strict": rng.random() < 0.5, "ignore": rng.random() < 0.4,
-            "encoding": rng.choice([None, None, None, "cp1252"]), "spelling": rng.choice([None, None, "sep"])}
+            "encoding": rng.choice([None, None, None, "cp1252"]), "spelling": rng.choice([None, None, "sep", "rel"])}
 
 
 def kwargs(c):
@@ -92,6 +92,12 @@ def impl(c):
     import simfile
     from simfile.dir import SimfileDirectory, SimfilePack
     t = F.Tree(c["fs"], dec_tree(c["tree"]))
+    import os
+    cwd = os.getcwd()
+    if c.get("spelling") == "rel" and t.kind == "native":
+        os.chdir(t.base)
+        _rel = t.rel
+        t.rel = lambda p: _rel(p if p is None or os.path.isabs(p) else os.path.join(t.base, p))     # relative answers are relative to that directory
     try:
         res = {"listings": {}, "dirs": {}}
         root_list = t.listdir(t.root)
@@ -100,6 +106,8 @@ def impl(c):
         for n in subdirs + [""]:
             d = t.root + (t.sep + n if n else "")
             dsp = d + (t.sep if c.get("spelling") == "sep" else "")        # the directory as a caller may spell it: with a trailing separator
+            if c.get("spelling") == "rel" and t.kind == "native":
+                dsp = os.path.relpath(d, t.base)                           # ... or relative to the current directory (set below)
             res["listings"]["/" + n if n else ""] = res["listings"].get("", None) if not n else [[x, t.isdir(d + t.sep + x)] for x in t.listdir(d)]
             def mk():
                 sd = SimfileDirectory(dsp, filesystem=t.fs, ignore_duplicate=c["ignore"])
@@ -121,12 +129,15 @@ def impl(c):
             entry["opendir"] = guard(od)
             res["dirs"][n] = entry
         rsp = t.root + (t.sep if c.get("spelling") == "sep" else "")
+        if c.get("spelling") == "rel" and t.kind == "native":
+            rsp = os.path.relpath(t.root, t.base)
         res["pack"] = guard(lambda: [t.rel(p) for p in SimfilePack(rsp, filesystem=t.fs).simfile_dir_paths])
         res["pack_name"] = guard(lambda: SimfilePack(t.root + t.sep, filesystem=t.fs).name)
         res["openpack"] = guard(lambda: [[G.sf_obs(sf), t.rel(p)] for sf, p in simfile.openpack(rsp, filesystem=t.fs, **kwargs(c))])
         res["pack_simfiles"] = guard(lambda: [G.sf_obs(sf) for sf in SimfilePack(rsp, filesystem=t.fs, ignore_duplicate=c["ignore"]).simfiles(**kwargs(c))])
         return res
     finally:
+        os.chdir(cwd)
         t.close()
 
 
